@@ -220,9 +220,11 @@ size_t ref_phrase(const rseed *s, int li, unsigned coin, char *out, int form) {
 }
 
 /* ---------------------------------------------------------------- decoder */
+int REF_NORMALISER;      /* which normaliser the library was given: 0 = NFKD (the documented one), 1 = identity */
 static size_t reduce(const char *str, size_t cap, char *buf /* cap+1 */) {
     size_t n = 0; int nonascii = 0;
     for (; str[n] && n < cap; n++) if ((uint8_t)str[n] & 0x80) { nonascii = 1; break; }
+    if (nonascii && REF_NORMALISER == 1) { n = strnlen(str, cap); memcpy(buf, str, n); buf[n] = 0; return n; }      /* the injected normaliser is the identity */
     if (nonascii) return u_nfkd(str, buf, cap);
     n = strnlen(str, cap);
     memcpy(buf, str, n); buf[n] = 0;
